@@ -147,6 +147,10 @@ fn format_variant(
                 } else {
                     let ty = match field_attr.type_override {
                         Some(type_override) => quote!(#type_override),
+                        None if field_attr.inline => {
+                            let ty = field_attr.type_as(&field.ty);
+                            quote!(<#ty as #crate_rename::TS>::inline())
+                        }
                         None => {
                             let ty = field_attr.type_as(&field.ty);
                             quote!(<#ty as #crate_rename::TS>::name())
@@ -178,6 +182,10 @@ fn format_variant(
                     } else {
                         let ty = match field_attr.type_override {
                             Some(type_override) => quote! { #type_override },
+                            None if field_attr.inline => {
+                                let ty = field_attr.type_as(&field.ty);
+                                quote!(format!("({})", <#ty as #crate_rename::TS>::inline()))
+                            }
                             None => {
                                 let ty = field_attr.type_as(&field.ty);
                                 quote!(<#ty as #crate_rename::TS>::name())
